@@ -3,8 +3,8 @@ use std::str::FromStr;
 #[cfg(not(feature = "library"))]
 use cosmwasm_std::entry_point;
 use cosmwasm_std::{
-    to_binary, Addr, Binary, CosmosMsg, Deps, DepsMut, Env, MessageInfo, Reply, ReplyOn, Response,
-    StdError, StdResult, SubMsg, WasmMsg,
+    to_binary, Addr, Binary, CosmosMsg, Deps, DepsMut, Env, MessageInfo, Order, Reply, ReplyOn,
+    Response, StdError, StdResult, SubMsg, WasmMsg,
 };
 use cw2::set_contract_version;
 use haloswap::querier::{query_balance, query_pair_info_from_pair};
@@ -236,8 +236,14 @@ pub fn execute_add_native_token_decimals(
     // Add the native token decimals to the allow list
     add_allow_native_token(deps.storage, denom.to_string(), decimals)?;
 
-    // Update the native token decimals for the existing pairs
-    let pair_infos = read_pairs(deps.storage, deps.api, None, None)?;
+    // Update the native token decimals for all the existing pairs (not only the first page)
+    let pair_infos = PAIRS
+        .range(deps.storage, None, None, Order::Ascending)
+        .map(|item| {
+            let (_, v) = item?;
+            v.to_normal(deps.api)
+        })
+        .collect::<StdResult<Vec<PairInfo>>>()?;
 
     // If the native token is already exist, then update the decimals for the existing pairs
     if is_native_exist {
